@@ -31,6 +31,23 @@ def fieldkey(t):
     return None
 
 
+def fieldkeys(t, depth=0):
+    """the table(s) a receiver stands for: one field, or each alternative of `if c { &self.a } else { &self.b }`"""
+    t = strip(t)
+    while isinstance(t, tuple) and t and t[0] in ("ref", "deref", "mut"):
+        t = strip(t[1])
+    if isinstance(t, tuple) and t and t[0] in ("gamma", "phi") and depth < 4:
+        out = []
+        for _, v in t[2]:
+            ks = fieldkeys(v, depth + 1)
+            if not ks:
+                return []
+            out += ks
+        return out
+    k = fieldkey(t)
+    return [k] if k else []
+
+
 def run(prog):
     fns = [f for f in prog.lib_fns if any(b["term"]["k"] == "call" for b in f.blocks)
            and not f.name.startswith("test") and "::test" not in f.npath]
@@ -38,8 +55,7 @@ def run(prog):
     for f in fns:
         for cs in f.terms.calls:
             if cs.callee.name in ("index", "index_mut") and len(cs.args) == 2 and vo.dim(f, cs.args[1]) == "Label":
-                k = fieldkey(cs.args[0])
-                if k:
+                for k in fieldkeys(cs.args[0]):
                     tabs.setdefault(k, []).append(f.name)
     missing = EXPECTED - set(tabs)
     if missing:
